@@ -27,6 +27,8 @@ COMPONENTS = ["parser", "printer"]
 TARGETS = []
 RULE = "generated documents in one-keyword-per-line layout with a unique comment after every simple single-line keyword and above every object / METADATA / VALIDATION / CONNECTIONOPTIONS opener; corpus files with their own comments; non-trivial = at least 2 comments"
 
+AWKWARD_INSIDE = ["\t", "\f", "\v", "\x1c", "\x1d", "\x1e", "\x85", "\u2028", "\u2029", " # ", " \"q' ", "   ", " END ", " \u00e9\u00df "]
+
 COMMENT_RE = re.compile(r"#[^\n]*|/\*.*?\*/", re.S)
 
 
@@ -38,7 +40,12 @@ def render_commented(doc, rng, newline="\n"):
 
     def new_comment(kind):
         n[0] += 1
-        return ("# %s-%d" % (kind, n[0])) if rng.random() < 0.7 else ("/* %s-%d */" % (kind, n[0]))
+        body = "%s-%d" % (kind, n[0])
+        if rng.random() < 0.3:
+            # awkward characters INSIDE the comment (never at its ends, never a line feed): characters str.splitlines()
+            # treats as line boundaries, tabs, a second '#', quotes, block words, non-ASCII letters
+            body += rng.choice(AWKWARD_INSIDE) + "tail"
+        return ("# " + body) if rng.random() < 0.7 else ("/* " + body + " */")
 
     def block(b, depth):
         ind = "  " * depth
@@ -165,6 +172,15 @@ def run(ctx):
         nl = "\r\n" if rng.random() < 0.2 else "\n"
         text, trailing, above = render_commented(doc, rng, nl)
         cases.append((text, trailing, above))
+    # directed (deterministic): every awkward inside-character once in a trailing comment and once above an opener
+    dl, dtrail, dabove = ["MAP"], {}, {}
+    for i, a in enumerate(AWKWARD_INSIDE):
+        c1, c2 = "# u-%d%stail" % (i, a), "# d-%d%stail" % (i, a)
+        dabove[c1] = "LAYER"
+        dtrail[c2] = "NAME"
+        dl += ["  " + c1, "  LAYER", "    NAME 'l%d' %s" % (i, c2), "  END"]
+    dl.append("END")
+    cases.insert(0, ("\n".join(dl) + "\n", dtrail, dabove))
     corp = [(f, t) for f, t in harness.corpus_files() if ("#" in t or "/*" in t) and len(t) < 12000]
     rng.shuffle(corp)
     for f, t in corp[:ctx.budget(40, 436)]:
